@@ -475,7 +475,13 @@ def scen_threads(g, n):
     out = []
     for _ in range(n):
         L, pool, paths, regs = history(g, 0)
-        L.append('threads 0 %d %s' % (r.choice([4, 8, 16]), ' '.join(hx(p) for p in paths)))
+        if r.random() < 0.3:
+            # a deep route: many parameter nodes on one search path
+            depth = r.choice([12, 20, 28])
+            t = ''.join('/{p%d}' % j for j in range(depth))
+            L.append('insert 0 %s 999' % hx(t.encode()))
+            paths = paths + [('/x' * depth).encode(), ('/x' * (depth - 1)).encode()]
+        L.append('threads 0 %d %d %s' % (r.choice([4, 8, 16]), r.choice([1, 20, 60]), ' '.join(hx(p) for p in paths)))
         for p in paths:
             L.append('search 0 ' + hx(p))
         L.append('dumpof 0')
